@@ -600,7 +600,7 @@ def case_strategy(draw, name, struct):
         "flag": draw(st.booleans()),
         # eager part: an array flag reaches the Mask branches through an eager lax.cond (one XLA
         # compilation per call), a Python flag is resolved by the choice-map constructors
-        "kind": draw(st.sampled_from(["arr", "py", "py"])),
+        "kind": draw(st.sampled_from(["py", "arr", "py"])),
         "op": "update" if heavy else draw(st.sampled_from(["importance", "update"])),
         "how": draw(st.sampled_from(["mask", "Mask"])),
         "chg": draw(st.booleans()),
@@ -1160,7 +1160,7 @@ def run(ctx):
     _selftest()
     jax = _lib()["jax"]
     for name in shard_names(ctx.shard, ctx.nshards):
-        per = ctx.pick(2, 8) if name in VERY_HEAVY else ctx.pick(3, 15)
+        per = ctx.pick(2, 8) if name in HEAVY else ctx.pick(3, 15)
         for struct in structures(name, not ctx.quick):
 
             def chk(case):
